@@ -34,22 +34,27 @@ func c04SameTrace(ref []float64) {
 	}
 }
 
+// handler exit inside the first handler (mark 5): hk 0 fall through, 1 raise a new error, 2 return, 3 break, 4 continue
+const c04HX = "  if hk == 1 {\n raise(\"W\")\n } elif hk == 2 {\n return 6\n } elif hk == 3 {\n break\n } elif hk == 4 {\n continue\n }\n"
+
 var c04Handlers = []string{
 	"",
-	" except {\n mark(5)\n }",
-	" except \"T\" {\n mark(5)\n }",
-	" except \"T\" as e {\n mark(5)\n }",
-	" except \"T\", \"U\" {\n mark(5)\n }",
-	" except e {\n mark(5)\n }",
-	" except \"T\" {\n mark(5)\n } except {\n mark(6)\n }",
+	" except {\n mark(5)\n" + c04HX + " }",
+	" except \"T\" {\n mark(5)\n" + c04HX + " }",
+	" except \"T\" as e {\n mark(5)\n" + c04HX + " }",
+	" except \"T\", \"U\" {\n mark(5)\n" + c04HX + " }",
+	" except e {\n mark(5)\n" + c04HX + " }",
+	" except \"T\" {\n mark(5)\n" + c04HX + " } except {\n mark(6)\n }",
+	" except e {\n mark(5)\n" + c04HX + " } except {\n mark(6)\n }",
+	" except \"T\" {\n mark(5)\n" + c04HX + " } except \"T\", \"U\" as e2 {\n mark(6)\n }",
 }
 var c04Types = []string{"T", "U", "V"}
 
-// c04Handled: reference - which handler mark (0 = unhandled) an error of the given type gets under handler shape h.
-// typ "" stands for a runtime error (its type text is none of T, U, V).
+// c04Handled: reference - which handler mark (0 = unhandled) an error of the given type gets under handler shape h:
+// the FIRST clause that lists the type (or lists none) handles it.  typ "" stands for a runtime error.
 func c04Handled(h int, typ string) float64 {
 	switch h {
-	case 1, 5:
+	case 1, 5, 7:
 		return 5
 	case 2, 3:
 		if typ == "T" {
@@ -64,18 +69,35 @@ func c04Handled(h int, typ string) float64 {
 			return 5
 		}
 		return 6
+	case 8:
+		if typ == "T" {
+			return 5
+		}
+		if typ == "U" {
+			return 6
+		}
 	}
 	return 0
 }
 
+const (
+	c04Normal = iota
+	c04Break
+	c04Continue
+	c04Return
+	c04Error
+)
+
 // VerifC04TryInLoop: a try statement with a symbolic handler shape, optional otherwise and a finally inside a loop
 // inside a function; the try block leaves by a symbolic exit kind (fall through, break, continue, return, raised
-// error of symbolic type, runtime error).  Trace of marks, result and error type equal the reference.
+// error of symbolic type, runtime error) and the first handler leaves by a symbolic exit kind as well (fall through,
+// new error, return, break, continue).  Trace of marks, result and error type equal the reference.
 func VerifC04TryInLoop() {
 	erp, vs := c04Setup()
 	h := zz.Choice("handlers", len(c04Handlers))
 	o := zz.Bool("otherwise")
 	k := zz.Choice("exit", 6)
+	hk := zz.Choice("handlerExit", 5)
 	ti := zz.Choice("type", len(c04Types))
 	n := zz.Choice("iterations", 2) + 1
 	src := "func f(k, t) {\n for i in range(1, n) {\n  try {\n   mark(1)\n" +
@@ -86,6 +108,7 @@ func VerifC04TryInLoop() {
 	}
 	src += " finally {\n mark(9)\n }\n  mark(3)\n }\n mark(4)\n return 0\n}\nf(k, t)"
 	vs.SetValue("k", float64(k))
+	vs.SetValue("hk", float64(hk))
 	vs.SetValue("t", c04Types[ti])
 	vs.SetValue("n", float64(n))
 	res, err := zzRun(erp, src, vs)
@@ -95,42 +118,63 @@ func VerifC04TryInLoop() {
 	var refRes float64
 	refErr := "" // "" none, else error type text ("RT" for the runtime error)
 	done := false
+	returned := false
 	for i := 1; i <= n && !done; i++ {
 		ref = append(ref, 1)
+		// outcome of the try block
+		out, outErr := c04Normal, ""
 		switch k {
 		case 0:
 			ref = append(ref, 2)
-			if o {
-				ref = append(ref, 7)
-			}
-			ref = append(ref, 9, 3)
 		case 1:
-			ref = append(ref, 9)
-			done = true
+			out = c04Break
 		case 2:
-			ref = append(ref, 9)
+			out = c04Continue
 		case 3:
-			ref = append(ref, 9)
-			refRes = 5
-			done = true
-		case 4, 5:
-			typ := ""
-			if k == 4 {
-				typ = c04Types[ti]
+			out, refRes = c04Return, 5
+		case 4:
+			out, outErr = c04Error, c04Types[ti]
+		case 5:
+			out, outErr = c04Error, "RT"
+		}
+		if out == c04Error {
+			typ := outErr
+			if typ == "RT" {
+				typ = ""
 			}
 			if m := c04Handled(h, typ); m != 0 {
-				ref = append(ref, m, 9, 3)
-			} else {
-				ref = append(ref, 9)
-				refErr = typ
-				if k == 5 {
-					refErr = "RT"
+				ref = append(ref, m)
+				out, outErr = c04Normal, ""
+				if m == 5 { // the first handler leaves by its own exit kind
+					switch hk {
+					case 1:
+						out, outErr = c04Error, "W"
+					case 2:
+						out, refRes = c04Return, 6
+					case 3:
+						out = c04Break
+					case 4:
+						out = c04Continue
+					}
 				}
-				done = true
 			}
+		} else if out == c04Normal && o {
+			ref = append(ref, 7)
+		}
+		ref = append(ref, 9) // finally runs exactly once on every way out
+		switch out {
+		case c04Normal:
+			ref = append(ref, 3)
+		case c04Break:
+			done = true
+		case c04Continue:
+		case c04Return:
+			done, returned = true, true
+		case c04Error:
+			done, refErr = true, outErr
 		}
 	}
-	if refErr == "" && !(k == 3) {
+	if refErr == "" && !returned {
 		ref = append(ref, 4)
 	}
 	c04SameTrace(ref)
